@@ -1,6 +1,7 @@
 """C03 — every supported signature expands to compiling code with the same call type (bounded)."""
 from ..common import Report
 from ..corpus import load, load_repo_tests
+from ..crossgen import load_cross
 from ..model import subst, ty_s
 from ..wrules import FnModView, ImplBlockView, trait_methods, impl_methods, last_seg, check_fnmod_predicates, is_mock_impl
 
@@ -184,6 +185,7 @@ def run(tier):
     configs = ["plain", "unimock_test"] if tier == "quick" else ["plain", "test", "unimock", "unimock_test"]
     programs = 0
     loaded = [(cfg, load(rep, "pos", cfg)) for cfg in configs]
+    loaded += [(cfg, load_cross(rep, cfg, tier)) for cfg in configs]
     if tier == "thorough":
         loaded.append(("unimock_test", load_repo_tests(rep)))
     for cfg, ld in loaded:
